@@ -135,6 +135,13 @@ type internalStruct struct {
 	SliceValuePointerNum uint32            `json:",omitempty"`
 	SliceValueType       string            `json:",omitempty"`
 	SliceValues          []*internalStruct `json:",omitempty"`
+
+	// NamedType is the registered name of a named map, slice or array type (type Names []string):
+	// the element types above only describe its underlying type.
+	NamedType string `json:",omitempty"`
+	// IsArray tells an array ([ArrayLen]T) from a slice
+	IsArray  bool   `json:",omitempty"`
+	ArrayLen uint32 `json:",omitempty"`
 }
 
 func internalMarshal(v any) (*internalStruct, error) {
@@ -221,6 +228,10 @@ func internalMarshal(v any) (*internalStruct, error) {
 			return nil, fmt.Errorf("unknown type: %v", rvt)
 		}
 		ret.MapValueType = key
+		if rt.Name() != "" {
+			// a named map type keeps its name if it is registered
+			ret.NamedType = rm[rt]
+		}
 
 		ret.MapValues = make(map[string]*internalStruct)
 
@@ -254,6 +265,14 @@ func internalMarshal(v any) (*internalStruct, error) {
 			return nil, fmt.Errorf("unknown type: %v", rvt)
 		}
 		ret.SliceValueType = key
+		if rt.Name() != "" {
+			// a named slice or array type keeps its name if it is registered
+			ret.NamedType = rm[rt]
+		}
+		if rt.Kind() == reflect.Array {
+			ret.IsArray = true
+			ret.ArrayLen = uint32(rt.Len())
+		}
 
 		length := rv.Len()
 		ret.SliceValues = make([]*internalStruct, length)
@@ -382,8 +401,17 @@ func internalUnmarshal(v *internalStruct) (any, error) {
 		}
 		rvt = resolvePointerNum(v.MapValuePointerNum, rvt)
 
+		mapType := reflect.MapOf(rkt, rvt)
+		if len(v.NamedType) > 0 {
+			mapType, ok = m[v.NamedType]
+			if !ok || mapType.Kind() != reflect.Map {
+				return nil, fmt.Errorf("unknown map type: %v", v.NamedType)
+			}
+			rkt, rvt = mapType.Key(), mapType.Elem()
+		}
+
 		// todo: if all values are based, can use unmarshal instead of internalUnmarshal
-		result, dResult := createValueFromType(resolvePointerNum(v.PointerNum, reflect.MapOf(rkt, rvt)))
+		result, dResult := createValueFromType(resolvePointerNum(v.PointerNum, mapType))
 		for marshaledMapKey, internalValue := range v.MapValues {
 			prkv := reflect.New(rkt)
 			err := sonic.UnmarshalString(marshaledMapKey, prkv.Interface())
@@ -411,8 +439,35 @@ func internalUnmarshal(v *internalStruct) (any, error) {
 	}
 	rvt = resolvePointerNum(v.SliceValuePointerNum, rvt)
 
+	sliceType := reflect.SliceOf(rvt)
+	if v.IsArray {
+		sliceType = reflect.ArrayOf(int(v.ArrayLen), rvt)
+	}
+	if len(v.NamedType) > 0 {
+		sliceType, ok = m[v.NamedType]
+		if !ok || (sliceType.Kind() != reflect.Slice && sliceType.Kind() != reflect.Array) {
+			return nil, fmt.Errorf("unknown slice type: %v", v.NamedType)
+		}
+		rvt = sliceType.Elem()
+	}
+
 	// todo: if all slice values are based, can use unmarshal instead of internalUnmarshal
-	result, dResult := createValueFromType(resolvePointerNum(v.PointerNum, reflect.SliceOf(rvt)))
+	result, dResult := createValueFromType(resolvePointerNum(v.PointerNum, sliceType))
+	if sliceType.Kind() == reflect.Array {
+		if len(v.SliceValues) != sliceType.Len() {
+			return nil, fmt.Errorf("unmarshal array[%s] fail: got %d values for %v", v.SliceValueType, len(v.SliceValues), sliceType)
+		}
+		for i, internalValue := range v.SliceValues {
+			value, err := internalUnmarshal(internalValue)
+			if err != nil {
+				return nil, fmt.Errorf("unmarshal array[%s] fail: %v", v.SliceValueType, err)
+			}
+			if value != nil {
+				dResult.Index(i).Set(reflect.ValueOf(value))
+			}
+		}
+		return result.Interface(), nil
+	}
 	for _, internalValue := range v.SliceValues {
 		value, err := internalUnmarshal(internalValue)
 		if err != nil {
